@@ -295,12 +295,12 @@ def detectLine (epoch : Rat) (sigs : List SigDef) (hasSink : String → Bool) (a
       | .scalar =>
         match parseFloat v with
         | some x => (acc.1, addTo st (some ⟨.scalar, ⟨actor, sd.name⟩, .sc (.num x)⟩) acc.2)
-        | none => (acc.1, addTo st none acc.2)
+        | none => acc      -- dropped entirely (before e3e8ea0 an event without values was still registered)
       | .delta =>
         match parseFloat v with
         | some x => (acc.1.set (actor, sd.name) x,
                      addTo st (some ⟨.delta, ⟨actor, sd.name⟩, .sc (.num (x - acc.1.get (actor, sd.name)))⟩) acc.2)
-        | none => (acc.1, addTo st none acc.2)) (lasts, [])
+        | none => acc) (lasts, [])
   (r.1, r.2.foldr insertEv [])
 
 end Shk.Spot
